@@ -409,7 +409,9 @@ impl Prop for C10 {
         };
         let b = bound(chunk.unwrap_or(16 << 10), max_item);
         let factor = match tier {
-            Tier::Quick => 8 + rng.below(8),
+            Tier::Quick => 8 + rng.below(24),
+            // now and then a marathon, for leaks of a few bytes per item
+            Tier::Thorough if rng.chance(1, 20) => 1000,
             Tier::Thorough => 8 + rng.below(120),
         };
         // one-byte reads are slow: keep those streams at the minimum length
